@@ -301,6 +301,83 @@ class Ctx:
             self.notes[f'{sub}:rounds'] = 'max rounds of collect-then-' \
                                           'continue reached'
 
+    def fuzz(self, sub, runs, max_len=4096, timeout=3600):
+        """Coverage-guided campaign (atheris/libFuzzer over the Hypothesis
+        strategy registered in the check's FUZZ table) in a subprocess; its
+        counters, samples and violations are merged under `<sub>@fuzz`."""
+        if not self.wants(sub) and not self.wants(sub + '@fuzz'):
+            return
+        import re
+        import shutil
+        sdir = os.path.join(VERIF, '.scratch')
+        os.makedirs(sdir, exist_ok=True)
+        tmpd = tempfile.mkdtemp(prefix=f'fuzz_{self.pid}_{sub}_', dir=sdir)
+        out = os.path.join(tmpd, 'result.json')
+        cmd = [sys.executable, '-m', 'vp.fuzz', self.pid, sub,
+               '--runs', str(int(runs)), '--seed', str(self.hseed(sub, 99)),
+               '--tier', self.tier, '--shard',
+               f'{self.shard[0]}/{self.shard[1]}', '--out', out,
+               '--max-len', str(max_len)]
+        try:
+            try:
+                p = subprocess.run(cmd, cwd=VERIF, capture_output=True,
+                                   text=True, timeout=timeout)
+                err = p.stderr or ''
+                rc = p.returncode
+            except subprocess.TimeoutExpired as e:
+                err = (e.stderr.decode(errors='replace')
+                       if isinstance(e.stderr, bytes) else (e.stderr or ''))
+                rc = 'timeout'
+                self.notes[f'{sub}@fuzz:timeout'] = timeout
+            if not os.path.exists(out):
+                raise HarnessError(f"{sub}@fuzz: no result (rc={rc}): "
+                                   f"{err[-1500:]}")
+            with open(out) as f:
+                res = json.load(f)
+        finally:
+            shutil.rmtree(tmpd, ignore_errors=True)
+        name = sub + '@fuzz'
+        self.evaluations += res.get('evaluations', 0)
+        self.per_sub[name] += res.get('evaluations', 0)
+        for k in res.get('nt', []):
+            self.nt.add(k)
+        for k, v in res.get('classes', {}).items():
+            self.classes[k.replace(sub + ':', name + ':', 1)] += v
+        for k, v in res.get('inconclusive', {}).items():
+            self.inconclusive[k] += v
+        for k, v in res.get('excluded', {}).items():
+            self.excluded[k] += v
+        for s in res.get('samples', [])[:2]:
+            s['sub'] = name
+            self.samples.append(s)
+        for v in res.get('violations', []):
+            if v['signature'] in self._seen_sig:
+                continue
+            self._seen_sig.add(v['signature'])
+            print(f"VIOLATION property={self.pid} replay={v['replay']}",
+                  flush=True)
+            print(f"  signature: {v['signature']}\n  message: "
+                  f"{v['message']}", flush=True)
+            self.violations.append(v)
+        for k in res.get('known_hits', []):
+            if k['signature'] not in self._seen_sig:
+                self._seen_sig.add(k['signature'])
+                print(f"KNOWN-FINDING: property={self.pid} {k['what']}"
+                      f" [signature={k['signature']}]", flush=True)
+                self.known_hits.append(k)
+        self.harness_errors += res.get('harness_errors', [])
+        cov = re.findall(r'cov: (\d+) ft: (\d+)', err)
+        info = {'executions': res.get('fuzz_executions', 0),
+                'requested_runs': int(runs), 'exit': rc}
+        if cov:
+            info['edges_covered'] = int(cov[-1][0])
+            info['features'] = int(cov[-1][1])
+            info['edges_after_first_input'] = int(cov[0][0])
+        self.notes[f'{name}:libfuzzer'] = info
+        if info['executions'] < min(50, int(runs)) and not self.harness_errors:
+            raise HarnessError(f"{name}: only {info['executions']} executions "
+                               f"(rc={rc}): {err[-800:]}")
+
     def enumerate(self, sub, specs, fn, exhaustive=None):
         """Run `fn` over an explicit (finite) list of specs; this shard takes
         every n-th.  All violations are collected (one per signature)."""
